@@ -534,6 +534,9 @@ func (fr *Frame) defaultCall(st *State, call ssa.CallInstruction, key string, si
 	}
 	clkBefore := st.clk
 	if !pure {
+		if fn == nil || isModuleFunc(fn) {
+			vc.mayRaiseStorageFlag(st)
+		}
 		clkBefore = vc.bumpClock(st)
 		hv, ha := argVals, args
 		if fn != nil && isModuleFunc(fn) && len(fn.Blocks) > 0 {
@@ -749,6 +752,12 @@ func (fr *Frame) havocArgs(st *State, argVals []ssa.Value, args []Term, deep boo
 				continue
 			}
 			vc.havocOS(st, a, t)
+			// an interface value known to hold a pointer: the callee may write through it
+			if bi, ok := vc.boxes[a]; ok {
+				if pt, ok := types.Unalias(bi.t).Underlying().(*types.Pointer); ok && !isContextOrImmutable(pt.Elem()) {
+					vc.havocPointee(st, bi.inner, pt.Elem(), deep, clkBefore)
+				}
+			}
 		case *types.Map:
 			mt := u
 			kv, kin := mapKeys(mt)
@@ -1006,7 +1015,63 @@ func (vc *VC) methodIsPure(m *types.Func) bool {
 	return true
 }
 
+// storageFlagKey: the ghost flag set by every failing call into the pluggable storage (C10).
+const storageFlagKey = "G:storageFailed"
+
+// raiseStorageFlag: flag' = flag || cond
+func (vc *VC) raiseStorageFlag(st *State, cond Term) {
+	if _, ok := vc.C.Ghosts["storageFailed"]; !ok {
+		return
+	}
+	if vc.frameActive() && !listsStorageFlag(vc.rootContract) && vc.curFrame != nil {
+		// the root contract's explicit frame does not list the flag: no storage call may fail here
+		vc.oblig(vc.curFrame, st, "frame", "", "storageFailed", Not(cond), token.NoPos)
+	}
+	old := vc.getMem(st, storageFlagKey, "Bool")
+	nm := vc.newMemVersion(storageFlagKey)
+	vc.sc.Def(Eq(nm, Or(old, cond)))
+	st.mem[storageFlagKey] = nm
+}
+
+// mayRaiseStorageFlag: an opaque callee may have called the storage: flag' is arbitrary but monotone
+func (vc *VC) mayRaiseStorageFlag(st *State) {
+	if _, ok := vc.C.Ghosts["storageFailed"]; !ok {
+		return
+	}
+	old := vc.getMem(st, storageFlagKey, "Bool")
+	nm := vc.newMemVersion(storageFlagKey)
+	vc.sc.Def(Implies(old, nm))
+	st.mem[storageFlagKey] = nm
+}
+
 func (fr *Frame) invoke(st *State, call ssa.CallInstruction) []Term {
+	res := fr.invoke0(st, call)
+	vc := fr.vc
+	vc.curFrame = fr
+	m := call.Common().Method
+	if vc.C.StorageIfaces[methodOwner(m)] && !vc.C.StorageLookups[ifaceMethodKey(m)] {
+		sig := m.Type().(*types.Signature)
+		if n := sig.Results().Len(); n > 0 && len(res) == n {
+			rt := sig.Results().At(n - 1).Type()
+			switch {
+			case isErrorType(rt):
+				vc.raiseStorageFlag(st, Not(Eq(res[n-1], "nilval")))
+			case vc.sortOf(rt) == "Ref" && isNamed(derefType(rt), modPath+"/pkg/oidc", "Error"):
+				vc.raiseStorageFlag(st, Not(Eq(res[n-1], "nilref")))
+			}
+		}
+	}
+	return res
+}
+
+func derefType(t types.Type) types.Type {
+	if p, ok := types.Unalias(t).Underlying().(*types.Pointer); ok {
+		return p.Elem()
+	}
+	return t
+}
+
+func (fr *Frame) invoke0(st *State, call ssa.CallInstruction) []Term {
 	vc := fr.vc
 	c := call.Common()
 	recv := fr.val(c.Value)
